@@ -3,7 +3,8 @@
    level's total among the current QuotaInfo figures of the siblings of that level. *)
 From Coq Require Import List ZArith Bool Lia Permutation.
 From Verif Require Import C02.Model C02.Proofs C02.Proofs_Perm C02.Calc_Model C02.Calc_Spec
-  C02.Calc_Proofs_Inv C02.Calc_Proofs_Run C02.Mgr_Model C02.Mgr_Proofs_Base C02.Mgr_Proofs_Inv.
+  C02.Calc_Proofs_Inv C02.Calc_Proofs_Run C02.Mgr_Model C02.Mgr_Proofs_Base C02.Mgr_Proofs_Inv
+  C02.Mgr_Proofs_Reset.
 Import ListNotations.
 Open Scope Z_scope.
 
@@ -94,6 +95,8 @@ Lemma update_quota_inv k par isPar lnd mx mn w st :
 Proof.
   intro Hi. unfold update_quota. destruct (afind k (g_quotas st)) as [mq|] eqn:Hf.
   - cbv zeta.
+    destruct (negb (Bool.eqb _ (m_isParent mq)) || negb (Bool.eqb _ (q_lend (m_info mq)))).
+    { apply reset_inv. apply (pre_set_quota st k mq); [apply minv_pre, Hi|exact Hf|reflexivity]. }
     assert (H1 : minv (if q_max (m_info mq) =? mx then st else do_max k mx st))
       by (destruct (q_max (m_info mq) =? mx); [exact Hi|apply do_max_inv, Hi]).
     set (st1 := if q_max (m_info mq) =? mx then st else do_max k mx st) in *.
